@@ -351,7 +351,7 @@ def dump_to_file(
         while writing the csv file.
     '''
     def _dump_to_file(source):
-        mode = None
+        mode = 'w'
         if encoding is not None:
             mode = 'wb'
         return source.pipe(
